@@ -22,6 +22,8 @@ pub const ROUND_PARAMS: [(usize, usize, usize, usize); 8] = [
 static POSEIDON: Lazy<Poseidon<Fr>> = Lazy::new(|| Poseidon::<Fr>::from(&ROUND_PARAMS));
 
 pub fn poseidon_hash(input: &[Fr]) -> Fr {
+    #[cfg(zerokit_verif)]
+    utils::verif::yield_point("poseidon_hash");
     POSEIDON
         .hash(input)
         .expect("hash with fixed input size can't fail")
@@ -46,6 +48,8 @@ impl utils::merkle_tree::Hasher for PoseidonHash {
 
 /// Hashes arbitrary signal to the underlying prime field.
 pub fn hash_to_field(signal: &[u8]) -> Fr {
+    #[cfg(zerokit_verif)]
+    utils::verif::yield_point("hash_to_field");
     // We hash the input signal using Keccak256
     let mut hash = [0; 32];
     let mut hasher = Keccak::v256();
